@@ -76,6 +76,7 @@ type Obligation struct {
 	Probes []Probe  `json:"-"`
 	Prefer []string `json:"-"`
 	Status string   `json:"status"` // discharged, failed, unknown, vacuous, ok(for expect=sat)
+	Notes  []string `json:"notes,omitempty"` // over-approximations taken on this path (e.g. a call without a contract)
 }
 
 type Probe struct {
